@@ -349,6 +349,110 @@ func TestCheckDiff(t *testing.T) {
 	})
 }
 
+// ---- diffs of values that have a history ------------------------------------------------------
+
+type histCase struct {
+	Left  *gen.NodeBP  `json:"left"`
+	Right *gen.NodeBP  `json:"right"`
+	Warm  int          `json:"warm"`
+	Edits []gen.EditOp `json:"edits"`
+}
+
+func warmUp(l, r gedcom.Node, rounds int) {
+	for i := 0; i < rounds; i++ {
+		d := gedcom.CompareNodes(l, r)
+		_ = d.String()
+		_ = d.IsDeepEqual()
+		d.Sort()
+		for _, a := range tu.All(l) {
+			for _, b := range tu.All(r) {
+				_ = a.Equals(b)
+			}
+		}
+	}
+}
+
+// checkHistory: a diff is a function of the content of the two trees, not of what was done
+// with them before. Live trees that were compared and then edited through the public API
+// must give exactly the diff of trees built from nothing with the same content.
+func checkHistory(c histCase) (fl *harness.Failure, edited int) {
+	defer func() {
+		if p := recover(); p != nil {
+			fl = harness.Failf("panic", "panic: %v", p)
+		}
+	}()
+	_, l, _ := gen.BuildTree(c.Left)
+	_, r, _ := gen.BuildTree(c.Right)
+	warmUp(l, r, c.Warm)
+	for _, e := range c.Edits {
+		if e.Apply(l, r) {
+			edited++
+			warmUp(l, r, 1)
+		}
+	}
+	// (read everything from the live trees before anything is built: creating nodes resets
+	// process-wide caches)
+	lbp, rbp := gen.FromNode(l), gen.FromNode(r)
+	lt, rtx := tu.Text(l), tu.Text(r)
+	live := gedcom.CompareNodes(l, r)
+	liveText, liveEqual := live.String(), live.IsDeepEqual()
+	liveDeep := gedcom.DeepEqual(l, r)
+	_, l2, _ := gen.BuildTree(lbp)
+	_, r2, _ := gen.BuildTree(rbp)
+	if lt != tu.Text(l2) || rtx != tu.Text(r2) {
+		return nil, 0
+	}
+	fresh := gedcom.CompareNodes(l2, r2)
+	if freshText := fresh.String(); freshText != liveText {
+		return harness.Failf("history-changes-diff:text", "CompareNodes of trees that were compared and edited before gives\n%s\nand of the same trees built from nothing\n%s\nleft:\n%sright:\n%s", liveText, freshText, lt, rtx), edited
+	}
+	if fe := fresh.IsDeepEqual(); fe != liveEqual {
+		return harness.Failf("history-changes-diff:is-deep-equal", "IsDeepEqual is %v for trees with a history and %v for the same trees built from nothing\nleft:\n%sright:\n%s", liveEqual, fe, lt, rtx), edited
+	}
+	if fd := gedcom.DeepEqual(l2, r2); fd != liveDeep {
+		return harness.Failf("history-changes-diff:deep-equal", "DeepEqual is %v for trees with a history and %v for the same trees built from nothing\nleft:\n%sright:\n%s", liveDeep, fd, lt, rtx), edited
+	}
+	return nil, edited
+}
+
+func TestCheckDiffHistory(t *testing.T) {
+	s := harness.NewSub("diff-after-history",
+		"pairs of trees (independent with the same root tag, or a tree and its permuted copy) that are first compared (CompareNodes, String, IsDeepEqual, Sort, Equals of every node with every node; 1..2 rounds), then edited through the public API (1..4 edits: AddNode, DeleteNode, SetNodes(nil), a DATE or PLAC child replaced, the children re-added as new nodes), comparing again after every edit; oracle: CompareNodes(...).String(), IsDeepEqual and DeepEqual of the live trees are exactly what the same trees built from nothing give; non-trivial = at least one edit changed a tree and the trees have >= 6 nodes together")
+	s.Rapid(t, harness.Share(harness.Pick(30000, 3000000)), 81, func(rt *rapid.T) {
+		l := gen.EqTree(gen.EqTreeOpts{MaxNodes: 14}).Draw(rt, "left")
+		var r *gen.NodeBP
+		if rapid.Bool().Draw(rt, "copy") {
+			r = l.Clone()
+			if len(r.Kids) > 1 {
+				r.Kids = rapid.Permutation(r.Kids).Draw(rt, "perm")
+			}
+		} else {
+			r = gen.EqTree(gen.EqTreeOpts{MaxNodes: 14, Roots: []string{l.Tag}}).Draw(rt, "right")
+		}
+		c := histCase{Left: l, Right: r, Warm: rapid.IntRange(1, 2).Draw(rt, "warm"), Edits: gen.EditOps(4).Draw(rt, "edits")}
+		fl, edited := checkHistory(c)
+		nt := edited > 0 && l.Count()+r.Count() >= 6
+		s.Eval(harness.JSON(c), nt, fmt.Sprintf("effective-edits:%d", edited))
+		if nt {
+			s.MaybeSample(c)
+		}
+		if fl != nil && s.Report(c, fl) {
+			rt.Fatalf("%s: %s", fl.Sig, fl.Msg)
+		}
+	})
+}
+
+func init() {
+	harness.RegisterReplay("diff-after-history", func(raw json.RawMessage) *harness.Failure {
+		var c histCase
+		if err := json.Unmarshal(raw, &c); err != nil {
+			return harness.Failf("bad-replay", "%v", err)
+		}
+		fl, _ := checkHistory(c)
+		return fl
+	})
+}
+
 func init() {
 	harness.Assume("'equal' in the coverage clauses = Equals in either direction or identical tag, value and pointer (EVEN and RESI decide Equals from their children)",
 		"the deep-equal premise is computed with DeepEqual in both directions on the pair itself",
